@@ -7,7 +7,8 @@ is a newly accepted connection, or a further request arriving on a connection th
 address is not bound at all refuses connections (ECONNREFUSED at squid).
 
 Behaviours (dicts, key "b"):
-  accept_fin / accept_rst      close (FIN / RST) right after accept, without reading
+  accept_fin / accept_rst      close without reading: FIN right after accept / RST as soon as the first request byte
+                               is in the socket buffer (unread)
   head_rst                     read the request head only, then RST
   full_fin / full_rst          read the complete request (head + Content-Length body), then FIN / RST without replying
   partial_head                 read the complete request, send a truncated response head, FIN
@@ -242,6 +243,14 @@ class PathOrigin:
                 b = a.beh.get("b", "reply")
                 if b in ("accept_fin", "accept_rst"):
                     if b == "accept_rst":
+                        # RST without reading -- but only once the first request byte sits in the socket buffer:
+                        # an RST racing with squid's non-blocking connect() would be reported there as a connect
+                        # failure (nothing sent), which is a different event
+                        if not buf:
+                            try:
+                                c.recv(1, socket.MSG_PEEK)
+                            except (OSError, socket.timeout):
+                                pass
                         c.setsockopt(socket.SOL_SOCKET, socket.SO_LINGER, LINGER0)
                     return
                 # read the head
